@@ -231,6 +231,22 @@ def run(F, R, tier):
     byn = [n for n in an["_nodes"] if n.get("k") == "Field" and n["field"] == "packages_by_name"]
     R.ob("C07-d", "add_nv indexes the selection by package name (feeds tier-1 unification)", len(byn) >= 1 and any(n.get("k") == "MethodCall" and n["name"] == "push" for n in an["_nodes"]), "packages_by_name no longer updated", an["file"])
 
+    # both kinds of registry requirement are attributed to the importing package
+    mm_ = F.body("graph::Builder::maybe_mark_dep")
+    tbl = {}
+    for m in [n for n in mm_["_nodes"] if n["k"] == "Match" and tyc(F, n["scrut"], "LoadSpecifierKind")]:
+        for arm in m["arms"]:
+            v, _c = pat_variants(arm["pat"])
+            for x in v:
+                tbl[x.split("::")[-1]] = sorted({(c_.get("fn") or "").split("::")[-1] for c_ in walk(arm["body"]) if c_.get("k") in ("Call", "MethodCall") and (c_.get("fn") or "").startswith("graph::Builder::mark_")})
+    R.ob("C07-b", "a jsr: import is attributed via mark_jsr_dep, an npm: import via mark_npm_dep", tbl.get("Jsr") == ["mark_jsr_dep"] and tbl.get("Npm") == ["mark_npm_dep"],
+         "maybe_mark_dep dispatches %s: the requirements of one kind are not recorded for the importing package" % tbl, mm_["file"])
+    for fn, fld in (("graph::Builder::mark_jsr_dep", "Jsr"), ("graph::Builder::mark_npm_dep", "Npm")):
+        b_ = F.body(fn)
+        ad = [n for n in b_["_nodes"] if callee_matches(n, ["PackageSpecifiers::add_dependency"])]
+        ok = len(ad) == 1 and any((ctor_of(x) or "").endswith("PackageKind::" + fld) or (x.get("k") == "Call" and (x.get("fn") or "").endswith("JsrDepPackageReq::" + fld.lower())) for x in walk(ad[0]))
+        R.ob("C07-b", "%s records a %s requirement for the importing package" % (fn.split("::")[-1], fld.lower()), ok, "%s no longer calls add_dependency with a %s requirement" % (fn.split("::")[-1], fld.lower()), b_["file"])
+
     # a manifest whose `exports` is a single string exports exactly "."
     ex = F.body("packages::JsrPackageVersionInfo::export")
     vals = []
